@@ -115,11 +115,12 @@ def classify(types, base, acc):
     return parent_tie, eq, rep
 
 
-def explore(mods, types, base, acc, want_samples=True):
-    """Run the real queue once; return list of (oracle, msg) failures."""
+def explore(mods, types, base, acc, want_samples=True, g=None):
+    """Run the real queue once; return list of (oracle, msg) failures.  g: a grammar object that has been used before (default: a fresh one)."""
     PcfgGrammar, PcfgQueue = mods
     fails = []
-    g = R.mem_grammar(PcfgGrammar, types, base)
+    if g is None:
+        g = R.mem_grammar(PcfgGrammar, types, base)
     mult = grid_of(types, base)
     total = sum(mult.values())
     try:
@@ -226,7 +227,8 @@ def run_shard(shard, tier, acc, oracle):
                 except Exception as e:
                     fails.append(('C01', 'raise: a queue built after an abandoned one raised %r' % (e,)))
                     break
-                fails3, seq3 = explore(mods, types, base, Acc0)
+                # the next queue: once over a fresh grammar object, once over the very grammar object the abandoned queue was built on
+                fails3, seq3 = explore(mods, types, base, Acc0, g=g0 if j == 2 else None)
                 acc.count('runs_after_an_abandoned_queue')
                 if seq3 != seq:
                     fails.append(('C01', 'abandoned: a queue abandoned after %d pops changes the run of the next queue: %r vs %r' % (j, seq3[:5], seq[:5])))
@@ -303,7 +305,7 @@ def replay(case, oracle):
         except Exception as e:
             fails.append((oracle, 'raise: a queue built after an abandoned one raised %r' % (e,)))
             break
-        fails3, seq3 = explore((PcfgGrammar, PcfgQueue), types, base, Acc0)
+        fails3, seq3 = explore((PcfgGrammar, PcfgQueue), types, base, Acc0, g=g0 if j == 2 else None)
         if seq3 != seq:
             fails.append((oracle, 'abandoned: a queue abandoned after %d pops changes the run of the next queue' % j))
             break
